@@ -1341,7 +1341,7 @@ def run_C05(ctx):
     # very long lines (around typical buffer sizes), with and without terminator, inside hunks.  The unary-number
     # model is cubic in the line length: model comparison up to 4096 bytes, verified parser + applier beyond
     big_x, big_k = [], []
-    for L in tiered(ctx, [2048, 8192, 8193], [1023, 1024, 4095, 4096, 8191, 8192, 8193, 16384, 20000]):
+    for L in tiered(ctx, [2048, 8192, 8193], [1023, 1024, 4095, 4096, 8191, 8192, 8193]):
         long1 = bytes(97 + (i * 7) % 26 for i in range(L - 1))
         long2 = bytes(97 + (i * 11) % 26 for i in range(L - 1))
         for o, n in ((b"a\nb\n" + long1 + b"\nc\n", b"a\nB\n" + long1 + b"\nc\nd\n"),
@@ -1360,7 +1360,8 @@ def run_C05(ctx):
             ctx.count("udiff:very-long-lines", len(vias))
     nt = lambda comp, kv, impl: impl.split(" ")[0] != "out=-"
     C.evaluate(ctx, "udiff-long-lines", big_x, rel, cap=300, nontrivial=nt)
-    C.evaluate(ctx, "udiff-longer-lines", big_k, rel, x=False, cap=600, nontrivial=nt)
+    # each of these cases needs several gigabytes in the unary-number checker: at most four at a time
+    C.evaluate(ctx, "udiff-longer-lines", big_k, rel, x=False, cap=600, nontrivial=nt, procs=4)
 
 
 SPECS["C05"] = dict(
@@ -1376,7 +1377,7 @@ SPECS["C05"] = dict(
     generators="udiff component: random line texts over small line alphabets (LF/CRLF/CR, missing final newline, empty) "
                "and their edits, in byte mode also invalid UTF-8; algorithm, radius in {0,1,2,3,5}, header on/off, "
                "hint on/off; rendered through Display, UnifiedDiff::to_writer, per-hunk to_writer and "
-               "udiff::unified_diff; lines of 2048, 8192, 8193 (thorough: 1023..20000) bytes inside hunks.  Every UnifiedDiff value is first rendered, iterated and written with other settings and then configured as asked.  The rendered text is parsed (strictly) and applied by the extracted check_patch",
+               "udiff::unified_diff; lines of 2048, 8192, 8193 (thorough: 1023..8193) bytes inside hunks.  Every UnifiedDiff value is first rendered, iterated and written with other settings and then configured as asked.  The rendered text is parsed (strictly) and applied by the extracted check_patch",
 )
 
 
